@@ -340,7 +340,11 @@ class BDDNonTerminalNode(BDDNode):
                 if succ.value:
                     repr.append('%s%s' % (neg, self.var))
             else:
-                repr.append('%s%s & %s' % (neg, self.var, succ))
+                succ_repr = '%s' % (succ)
+                if succ_repr.startswith('('):
+                    # succ is printed as a disjunction
+                    succ_repr = '(%s)' % (succ_repr)
+                repr.append('%s%s & %s' % (neg, self.var, succ_repr))
 
         if len(repr) == 2:
             return '(%s) | (%s)' % (repr[0], repr[1])
